@@ -221,6 +221,20 @@ func gen(tier string) []proto.Item {
 			s.SynAck = &simnet.SynAckSpec{Enabled: true, ISN: 0x1234, AckNum: 0x8000, SackPermitted: true, WrongFirst: true}
 			items = append(items, proto.Item{Scn: s, Class: v + "/other-connections-synack-first"})
 		}
+		if vi.Kind == "sack" {
+			// a segment of the run's own connection that is no probe reply - the handshake SYN-ACK retransmitted, the target
+			// closing (FIN) or resetting (RST) its side - arrives at each position among the replies: the replies inside
+			// their windows are still all recognised
+			for _, form := range []string{"synack", "tcpfinack", "rstack", "rst"} {
+				for _, t := range []int{1, 2, 3} {
+					for _, d := range []int{-1, 2500} {
+						s := base(v, rng{1, 4}, 3)
+						s.Inject = []proto.Inject{{OnTTL: t, AnswerTTL: t, Form: form, From: s.Target().String(), DelayUs: d, Tag: "own-connection-non-reply"}}
+						items = append(items, proto.Item{Scn: s, Class: fmt.Sprintf("%s/r1-4/own-connection-%s-among-the-replies", v, form)})
+					}
+				}
+			}
+		}
 		// SACK: every history of the probes that reach the target (acknowledged / acknowledgement lost / probe lost),
 		// for initial sequence numbers such that the 2^32 wrap falls inside the probed range
 		if vi.Kind == "sack" {
